@@ -38,7 +38,7 @@ DRIVER = "vf.props.c14_events"
 EVENT_NAMES = [
     "tr_s1", "tr_s2", "tr_s3",
     "opt_reshape2", "opt_reshape_az", "opt_fold_o11", "opt_fold_o18", "opt_padconv", "opt_matreshape", "opt_nearmiss", "opt_mixed",
-    "rw_checkraises", "rw_patternraises", "rw_alt", "rw_rms", "fold_reuse", "convert",
+    "rw_checkraises", "rw_patternraises", "rw_alt", "rw_rms", "fold_reuse", "convert", "pass_plain",
     "eager_raise", "use_persist", "proto_repeat", "glob_mut", "use_g",
 ]
 NAMES = ["alpha", "beta", "acc", "run", "p", "q", "r", "tot"]  # variable names the scripts put into sets
